@@ -25,7 +25,7 @@ ASSUMPTIONS = [
     "market.data may be replaced by a resampled frame during a run with interval > 1 min; the supplied frame objects are what must stay unchanged",
 ]
 MIN_NONTRIVIAL = {"quick": 250, "thorough": 5000}
-REQUIRED_LABELS = ["mkt.uni", "mkt.aave", "mkt.sq", "mkt.opt", "mkt.glp", "mkt.gm", "interval.gt1", "cut.first_bar", "cut.middle", "twap.straddles_cut", "write_before_cut", "rerun", "truncated", "wallet.grows_before_cut"]
+REQUIRED_LABELS = ["mkt.uni", "mkt.aave", "mkt.sq", "mkt.opt", "mkt.glp", "mkt.gm", "interval.gt1", "cut.first_bar", "cut.middle", "twap.straddles_cut", "write_before_cut", "rerun", "truncated", "wallet.grows_before_cut", "manager_path"]
 
 D = Decimal
 
@@ -229,6 +229,32 @@ def body(case, ctx: Ctx):
         ctx.check(d1 == d3, "rerun.history_df", lambda: f"second run on the same inputs gives another account_status_df: {first_diff(d1, d3)}", case)
         a1, a3 = actions_plain(u1), actions_plain(u3)
         ctx.check(a1 == a3, "rerun.actions", lambda: f"second run on the same inputs recorded different actions: {first_diff(a1, a3)}", case)
+    # ---- the other entry point: the same inputs handed to a BacktestManager (one strategy, in-process) stay intact too
+    if case["variant"] == 0:
+        def via_manager():
+            import contextlib, io, os
+
+            from demeter import BacktestManager
+
+            cfg, data, bk = multi.manager_inputs(uc)
+            before = {mi.name: (id(df), fingerprint(df)) for mi, df in data.data.items()}
+            pf = data.prices[0] if isinstance(data.prices, tuple) else data.prices
+            before["_prices"] = (id(pf), fingerprint(pf))
+            out = os.path.join(os.environ.get("VF_WORK", "."), f"c02-mgr-{os.getpid()}.json")
+            with contextlib.redirect_stdout(io.StringIO()), contextlib.redirect_stderr(io.StringIO()):
+                BacktestManager(cfg, data, [multi.managed_script(uc, uc["prog"], out, 0)], bk, threads=1).run()
+            if os.path.exists(out):
+                os.remove(out)
+            after = {mi.name: (id(df), fingerprint(df)) for mi, df in data.data.items()}
+            pf2 = data.prices[0] if isinstance(data.prices, tuple) else data.prices
+            after["_prices"] = (id(pf2), fingerprint(pf2))
+            return before, after
+
+        r_ = ctx.guarded("run.manager", case, via_manager)
+        if r_ is not None:
+            labels.add("manager_path")
+            for key in r_[0]:
+                ctx.check(r_[0][key] == r_[1].get(key), f"intact.manager.{key}", lambda: f"a BacktestManager run ({uc['k']}-minute bars) changed the supplied {key} data of its BacktestData", case)
     # ---- no look-ahead
     nontrivial = False
     if k < nb - 1:
